@@ -237,7 +237,8 @@ fn chain_case<T: TElem>(ctx: &Ctx, rep: &mut Report, case: u64, g: &mut Sm64) {
         let eps = f32::EPSILON as f64;
         let m_all = chains.iter().flatten().sum::<f64>() / (n_chains * len) as f64;
         let cond = (m_all * m_all + wv.w) / wv.w;
-        let tol = 2e-3 * wv.rhat + 8.0 * (len as f64) * eps * cond * wv.rhat + 1e-6;
+        // (a few ulps of the running sums times the conditioning, whatever the length: at least 16 steps' worth)
+        let tol = 2e-3 * wv.rhat + 8.0 * (len.max(16) as f64) * eps * cond * wv.rhat + 1e-6;
         if tol > 0.25 * wv.rhat {
             // running f32 means of x and x^2 cannot resolve the within-chain variance here
             // (a handful of updates with |mean| >> sd): no relative accuracy can be demanded
